@@ -59,7 +59,7 @@ DENSITIES = {
 }
 DEFINITIONAL = {"t2eri_1", "t2eri_2", "t2eri_3", "t2eri_4", "t2eri_5",
                 "t2eri_6", "t2eri_7", "t2eri_A", "t2eri_B", "t2sq"}
-SLOW = {"t4_2", "p0_3_oo", "p0_3_ov", "p0_3_vv"}
+SLOW = {"t4_2"}
 
 
 def real(e):
@@ -152,8 +152,8 @@ def run(ctx):
             ctx.note(f"{name}:{tag} derivation {time.time() - t0:.1f}s")
             # ---- (ii) fully expanded = once expanded with lower
             #      intermediates replaced by their definitions ------------
-            if (cls.order <= 2 or not quick) and \
-                    cls.itmd_type != "re_residual":
+            if (cls.order <= 2 or not quick or name.startswith("p0_3")) \
+                    and cls.itmd_type != "re_residual":
                 try:
                     d_full = real(cls.expand_itmd(indices=names,
                                                   fully_expand=True))
